@@ -402,13 +402,16 @@ def run(ck, tier, rng):
     #      elements vs model/SimpleTypeLib.attr_step; a refused value must leave the attribute as it was
     adiffs = attr_histories(ck, rows, meta, st_class, rng)
     diffs += adiffs
+    # ---- generated adders  parent._add_<child>(attr=value): refused => parent untouched
+    bdiffs = adder_histories(ck, rows, meta, st_class, rng)
+    diffs += bdiffs
 
     # ---- oracle: the property's statement on the implementation, per attribute row
     oracle_rows(ck, rows, meta, st_class, rng)
     for e in expect[:3] + expect[len(expect) // 2: len(expect) // 2 + 3]:
         ck.sample({"op": e[0], "class": e[1], "value": repr(e[2]), "impl": list(e[3])}, limit=8)
     if diffs and not any(v["concrete"] for v in ck.violations):
-        op, name, v, res, mo = first
+        op, name, v, res, mo = first if first is not None else ("a", "attribute / adder histories (see notes)", None, None, None)
         ck.violation("correspondence",
                      "generated Gallina (gen/GenC11.v over lib/PyVal.v) and pptx.oxml.simpletypes disagree on %d cases, e.g. %s.%s(%r): model=%s impl=%r" % (
                          diffs, name, "to_xml" if op == "w" else "from_xml", v, mo, res),
@@ -507,6 +510,113 @@ def attr_histories(ck, rows, meta, st_class, rng):
             diffs += 1
             if diffs <= 5:
                 ck.notes.append("attr-history diff %s: values=%r impl=%r model=%s" % (r["sig"], [repr(v) for v in vals][:8], steps[:8], mo[:300]))
+    return diffs
+
+
+def adder_histories(ck, rows, meta, st_class, rng):
+    """The generated xmlchemy adder  parent._add_<child>(attr=value)  builds the child, assigns the attributes
+    and only then inserts it: a value the simple type refuses must leave the PARENT exactly as it was
+    ("rejected ... before anything is written"), an accepted one adds exactly one child carrying the text
+    the class writes.  Every (registered parent class with such an adder, attribute row of the child class)
+    x values of the row's grid; the model side is attr_step on an absent attribute (runner op a)."""
+    import sys as _sys
+    _sys.path.insert(0, os.path.join(VERIF, "tx"))
+    try:
+        import tx_c11
+        regs = tx_c11.registered_classes()
+    finally:
+        _sys.path.pop(0)
+    from lxml import etree
+    by_child = {}
+    for r in rows:
+        by_child.setdefault(r["tag"], []).append(r)
+    cases, expect = [], []
+    n_adders = 0
+    for ptag, pcls in sorted(regs.items()):
+        for ctag, crs in sorted(by_child.items()):
+            local = ctag.split(":")[1]
+            if not hasattr(pcls, "_add_" + local) or not hasattr(pcls, "_insert_" + local):
+                continue
+            if "_BaseChildElement._add_adder" not in getattr(getattr(pcls, "_add_" + local), "__qualname__", ""):
+                continue            # a hand-written adder with its own signature; only the generated one takes **attrs
+            try:
+                probe = getattr(make_element(ptag), "_new_" + local)()
+            except Exception:  # noqa
+                continue
+            if probe.tag != _clark(ctag):
+                continue            # same local name in another namespace (a:pt vs c:pt)
+            n_adders += 1
+            for r in crs:
+                if type(probe).__name__ != r["cls"]:
+                    continue
+                st = st_class(r["st"])
+                grid = list(st) if r["is_enum"] else grid_for(r["st"], meta, rng)
+                valid = [v for v in grid if impl_to_xml(st, v)[0] == "ok"]
+                if not valid:
+                    continue
+                pick = [valid[0], valid[-1]] + rng.sample(grid, min(len(grid), 6))
+                pick = [v for v in pick if enc_val(v) != "o" or isinstance(v, (bytes, list, tuple, dict, complex))]
+                pick = [v for v in pick if not (isinstance(v, str) and any(ord(c) > 127 for c in v))]
+                clark = _clark(r["attr"])
+                for v in pick:
+                    try:
+                        parent = make_element(ptag)
+                    except Exception:  # noqa
+                        break
+                    before = etree.tostring(parent)
+                    try:
+                        child = getattr(parent, "_add_" + local)(**{r["prop"]: v})
+                        out, cur = "ok:", child.get(clark)
+                        if len(parent) != 1 or parent[0] is not child:
+                            ck.violation("adder-accepted-but-not-one-child", "%s._add_%s(%s=%r) returned a child but <%s> now holds %d children" % (
+                                pcls.__name__, local, r["prop"], v, ptag, len(parent)),
+                                {"entry_point": "%s._add_%s" % (pcls.__name__, local), "input": {"parent": ptag, "attr": r["prop"], "value": repr(v)},
+                                 "impl_outcome": etree.tostring(parent).decode()})
+                    except Exception as e:  # noqa
+                        out, cur = "err:" + exc_name(e), None
+                        after = etree.tostring(parent)
+                        if after != before:
+                            ck.violation("adder-rejected-but-written",
+                                         "%s._add_%s(%s=%r) is refused (%s) but <%s> changed: %s" % (
+                                             pcls.__name__, local, r["prop"], v, type(e).__name__, ptag, after.decode()[-200:]),
+                                         {"entry_point": "%s._add_%s(**attrs)" % (pcls.__name__, local),
+                                          "input": {"parent": ptag, "child": ctag, "attr": r["prop"], "value": repr(v)},
+                                          "impl_outcome": after.decode()[-400:]})
+                    ck.count(("adder", ptag, r["sig"], repr(v)), True, "adder")
+                    if r["is_enum"] or r.get("default") is None or not meta["simple_types"].get(r["st"], {}).get("w"):
+                        continue
+                    cases.append(["a", r["st"], "r" if r["kind"] == "RequiredAttribute" else "o", r["default"], "-", enc_val(v)])
+                    expect.append((ptag, r, v, out, cur))
+    ck.notes.append("generated adders exercised: %d (parent class, child) pairs" % n_adders)
+    if not cases or not os.path.exists(os.path.join(COQ, "extract", "run_c11")):
+        return 0
+    try:
+        model_out = run_model("C11", cases)
+    except Exception as e:  # noqa
+        ck.notes.append("adder model run failed: %r" % e)
+        return 0
+    diffs = 0
+    for (ptag, r, v, out, cur), mo in zip(expect, model_out):
+        mout, _, mstate = mo.partition(" ")
+        ok = mout == out
+        if ok and out == "ok:":
+            if cur is None:
+                ok = mstate == "-"
+            else:
+                text = "".join(chr(int(t)) for t in mstate[1:].split(" ")) if len(mstate) > 1 else ""
+                if mstate[:1] != "=":
+                    ok = False
+                elif text.startswith(MARK):
+                    try:
+                        ok = enc_float(float(cur)) == text[1:]
+                    except ValueError:
+                        ok = False
+                else:
+                    ok = text == cur
+        if not ok:
+            diffs += 1
+            if diffs <= 5:
+                ck.notes.append("adder diff <%s>._add(%s=%r): impl=%r model=%s" % (ptag, r["sig"], v, (out, cur), mo[:200]))
     return diffs
 
 
